@@ -40,7 +40,8 @@ rm -f examples/seeded_demo.rs
 mkdir -p "$MH"; rsync -a --delete --exclude target /verif/harness/ "$MH/harness/"
 sed -i "s#reval = { path = \"/repo\" }#reval = { path = \"$WT\" }#" "$MH/harness/Cargo.toml"
 cp /verif/KNOWN_FINDINGS.txt "$MH/"; rsync -a /verif/regressions "$MH/"
-export CARGO_TARGET_DIR=/tmp/mh/target
+TGT="${SEEDCHECK_TARGET:-/tmp/mh/target}"
+export CARGO_TARGET_DIR="$TGT"
 if ! (cd "$MH/harness" && cargo build -q --release --offline --bins >"$OUT/hbuild$N.log" 2>&1); then
   if grep -Eq 'E0277|cannot be (sent|shared) between threads' "$OUT/hbuild$N.log"; then res "$R" harness_build "send-sync-compile-error"; else res "$R" harness_build "failed"; fi
 fi
@@ -48,8 +49,8 @@ caught=""
 for P in C01 C02 C03 C04 C05 C06 C07 C08 C09 C10 C11 C12 C13 C14 C15 C16 C17 C18 C19; do
   BIN=rvv; [ $P = C18 ] && BIN=rvv_c18
   if [ $P = C18 ] && grep -Eq 'E0277|cannot be (sent|shared) between threads' "$OUT/hbuild$N.log" 2>/dev/null; then caught="$caught $P(static)"; continue; fi
-  [ -x /tmp/mh/target/release/$BIN ] || continue
-  VERIF_DIR="$MH" timeout 600 /tmp/mh/target/release/$BIN $P quick >"$MH/$P.out" 2>"$MH/$P.err"
+  [ -x "$TGT/release/$BIN" ] || continue
+  VERIF_DIR="$MH" timeout 600 "$TGT/release/$BIN" $P quick >"$MH/$P.out" 2>"$MH/$P.err"
   rc=$?
   if grep -q "^VIOLATION" "$MH/$P.out"; then caught="$caught $P"; fi
   if [ $rc -ne 0 ] && [ $rc -ne 1 ]; then caught="$caught $P(rc=$rc)"; fi
